@@ -165,7 +165,7 @@ class Interp:
         if s.startswith("ZeroSized: "):
             tag = s[len("ZeroSized: "):]
             if tag.startswith("{closure@"):
-                f = self.P.closures.get(tag)
+                f = fr.fn.closures.get(tag) or self.P.closures.get(tag)
                 if f is None: raise Unmodelled("closure " + tag)
                 return Closure(f, [])
             if tag.startswith("fn(") or " {" in tag:
@@ -191,6 +191,14 @@ class Interp:
                         break
             if pf is None: raise Unmodelled("promoted " + s + " in " + fr.fn.name)
             return self.run_fn(pf, [])
+        # enum tuple variant with constant fields:  Result::<A, B>::Err(NotEnoughBytesError)
+        m = re.fullmatch(r"(.+?)::(\w+)\((.*)\)", s)
+        if m and not s.startswith(("<", "&")):
+            d = self.P.enum_for_type(want_ty, fr.fn.crate) if want_ty is not None else None
+            if d is None or m.group(2) not in d.index:
+                d = self.P.enum_for_type(parse_ty(strip_generics(m.group(1))), fr.fn.crate)
+            if d is not None and m.group(2) in d.index:
+                return EnumV(d, m.group(2), [Cell(self.const(fr, a.strip())) for a in split_top(m.group(3)) if a.strip()])
         # enum unit variant / unit struct as const:  std::option::Option::<T>::None
         m = re.fullmatch(r"(.+)::(\w+)", strip_generics(s))
         if m:
@@ -206,6 +214,9 @@ class Interp:
             return self.run_fn(f, [])
         hv = self.std.const_value(self, s, want_ty)
         if hv is not None: return hv
+        if re.fullmatch(r"[A-Za-z_][\w]*(::[A-Za-z_][\w]*)*", s) and s.split("::")[-1][0].isupper() \
+                and (want_ty is None or (want_ty.kind == "adt" and want_ty.last() == s.split("::")[-1])):
+            return Agg(s, [])          # unit struct value
         raise Unmodelled(f"const {s} in {fr.fn.name}")
 
     def _find_const(self, s, crate):
@@ -335,7 +346,7 @@ class Interp:
         vals = [Cell(self.operand(fr, o)) for o in ops]
         if head.startswith("{closure@") or head.startswith("{closure#"):
             tag = re.match(r"\{closure@[^}]*\}", head)
-            f = self.P.closures.get(tag.group(0)) if tag else None
+            f = (fr.fn.closures.get(tag.group(0)) or self.P.closures.get(tag.group(0))) if tag else None
             if f is None: raise Unmodelled("closure " + head)
             return Closure(f, vals)
         dty = self.place_ty(fr, dest)
